@@ -19,7 +19,13 @@ import (
 // the leaf, but only a handful of edges per stage. It is run as a subprocess with QEEP_VERIF_TRACE set so that the
 // library's own file sink records the back-propagation; the derivative of every stage is 1, so the leaf's gradient
 // must be exactly 1 whatever the depth.
-func ladder(arg string) int {
+func ladder(arg string) (code int) {
+	defer func() {
+		if r := recover(); r != nil {
+			fmt.Println("LADDER-ERROR panic:", r)
+			code = 1
+		}
+	}()
 	n, err := strconv.Atoi(arg)
 	if err != nil {
 		return 2
@@ -43,6 +49,10 @@ func ladder(arg string) int {
 	start := time.Now()
 	if err := tensor.BackPropagate(h); err != nil {
 		fmt.Println("LADDER-ERROR", err)
+		return 1
+	}
+	if x.Gradient() == nil {
+		fmt.Println("LADDER-ERROR the leaf has no gradient after BackPropagate")
 		return 1
 	}
 	_, g, err := bind.Read(x.Gradient())
@@ -81,6 +91,12 @@ func ladderCheck(c *run.Ctx, depth int) error {
 		c.Violate(fmt.Sprintf("back-propagating a ladder of %d reconvergent stages did not finish within 60 s (a 14-stage ladder: %s timed out=%v)", depth, strings.TrimSpace(small), to2),
 			map[string]any{"ladder_depth": depth})
 		return nil
+	}
+	if strings.Contains(out, "LADDER-ERROR") {
+		if again, _ := runOne(depth, 60*time.Second); strings.Contains(again, "LADDER-ERROR") {
+			c.Violate(fmt.Sprintf("back-propagating a ladder of %d reconvergent stages over one tracked leaf fails: %s", depth, strings.TrimSpace(out)), map[string]any{"ladder_depth": depth, "output": out})
+			return nil
+		}
 	}
 	if !strings.Contains(out, "LADDER depth=") {
 		return run.Brokenf("ladder subprocess failed: %s", out)
